@@ -7,7 +7,8 @@ TRUST = ("Trusted: the VC generator and value model (cross-checked against CPyth
          "networkx/builtin contracts (y0vc/libspec.py), Python semantics as listed in DESIGN §3")
 CHECKS = {
  "C14": ("proof", "Every listed graph operation under contract has its whole-view postcondition (node set, directed and bidirected edge relation), "
-         "its exception condition and its frame condition discharged from VCs generated out of the real AST, for all graphs of all sizes; "
+         "its exception condition and its frame condition (no write to the receiver or arguments, no mutable state shared between result and receiver -- a refuted frame obligation is "
+         "replayed on the real code by writing to the result and re-reading the receiver) discharged from VCs generated out of the real AST, for all graphs of all sizes; "
          "`intervene` is proved relative to the axioms of the Variable algebra (x.intervene(S) is the counterfactual variable with x's name and exactly the subscripts S; injective on "
          "plain variables) and additionally cross-checked against its definition on every mixed graph with <= 3 nodes (its inputs cannot be enumerated by the finite-model search); "
          "`__eq__` (the relation all clauses are stated in) is under contract too.",
@@ -27,9 +28,13 @@ CHECKS = {
          TRUST + "; assumed contract: are_d_separated (verified under C04)", TECH + " (canonical form) + bounded exhaustive enumeration against an oracle", "DESIGN.md §5 C15"),
  "C13": ("other", "Proved for all expressions, distributions and value assignments (den/ok uninterpreted, QF_UFNRA): every __mul__ / __truediv__ implementation "
          "(Expression, Probability, Product, Sum, Fraction, QFactor, One, Zero), Fraction.flip, Fraction.simplify, Fraction._simplify_parts and Product.safe return an expression "
-         "denoting the product / quotient / same value of their arguments. Assumed contracts checked only by the bounded stand-in (sampled concrete expressions, exact rational "
-         "evaluation): Fraction._simplify_parts_helper (index loops), Sum.safe, Sum.simplify, marginalize, normalize_marginalize, conditional, chain_expand (incl. single-child factors), "
-         "fraction_expand, bayes_expand, contract, recursive_contract -- these rest on probability facts (marginalising a joint, chain rule, definition of a conditional). "
+         "denoting the product / quotient / same value of their arguments; Sum.safe(e, R) denotes the sum of e over R (proved from the body for Variable / collection-of-Variable "
+         "ranges incl. the empty-range and Zero-body short cuts and the TypeError of Sum.__post_init__; the simplify=True path relative to Sum.simplify), Expression.marginalize(R) "
+         "the sum over the base variables of R, Expression.normalize_marginalize(R) the receiver divided by that sum (ZeroDivisionError only when the sum denotes zero). "
+         "Assumed contracts checked only by the bounded stand-in (sampled concrete expressions, exact rational "
+         "evaluation): Fraction._simplify_parts_helper (index loops), Sum.simplify, conditional, chain_expand (incl. single-child factors), "
+         "fraction_expand, bayes_expand, contract, recursive_contract -- these rest on probability facts about probability leaves (marginalising a joint, chain rule), for which the "
+         "expression theory has no leaf semantics. The three proved methods keep the wide sampled run-time cross-check because subclasses may override them (dynamic dispatch). "
          "One open known finding (Expression.conditional with bound variables / subscripts).",
          TRUST + "; algebraic and fold laws instantiated per path (listed in y0vc/exprs.py LAWS); termination of Fraction.simplify's recursion not verified",
          TECH + " (QF_UFNRA, ground-instantiated laws) + bounded run-time contracts with exact evaluation", "DESIGN.md §5 C13"),
@@ -49,7 +54,8 @@ CHECKS = {
          "on a valid query and lets no exception escape (Unidentifiable becomes None). Undecided (solver budget) and left to the bounded "
          "stand-in: the two line_7 guard obligations at its call site and line_7's final ValueError. Bounded part (decides 'refuses exactly when not identifiable' and 'caller's "
          "objects unchanged' end to end): identify_outcomes on every ADMG with 2-3 nodes x every query, textbook graphs, sampled 4-6 node ADMGs (incl. string-labelled graphs), "
-         "against an independent c-component identifiability criterion. Termination: every recursive call of `identify` is shown to decrease a well-founded measure (the node set "
+         "and a verdict-only family of 120,000 uniformly sampled 4-5 node ADMGs x queries (no numeric evaluation, so it is cheap), "
+         "against an independent c-component identifiability criterion. Precondition of every ID contract: the nodes are plain variables (a counterfactual variable cannot be summed over). Termination: every recursive call of `identify` is shown to decrease a well-founded measure (the node set "
          "shrinks strictly -- lines 2 and 7, the latter via a proved cut: the district of G enclosing the single district of G-X is bidirected-connected, and G is not one district -- "
          "or stays and the set of non-treatment nodes shrinks strictly -- lines 3 and 4); loops inside the graph operations iterate over finite containers and are not given variants.",
          TRUST + "; trusted mathematics: hedge criterion (Shpitser & Pearl 2006) = Tian-Pearl c-component criterion used by the oracle; assumed contracts: p_conditional, Product.safe over an index set (opaque)",
@@ -96,14 +102,18 @@ CHECKS = {
          "(helper(l,m,r) = helper(r,m,l): the step from which symmetry of the verdict follows), and get_equivalence_classes returns exactly the strongly connected components "
          "(singletons on acyclic graphs). The path enumeration (networkx.all_simple_paths, more_itertools.triplewise, the one-step backtracking) is outside the subset; symmetry, the "
          "adjacency rule and agreement with d-separation on acyclic graphs are decided end to end by the labelled bounded stand-in: every directed mixed graph with 2-3 nodes x every "
-         "query and sampled 4-5 node graphs against networkx d-separation on the canonical DAG.",
+         "query and sampled 4-5 node graphs against networkx d-separation on the canonical DAG, including a history family (the graph object is queried once before its last edge "
+         "is added in place: no verdict may depend on state kept from an earlier call).",
          TRUST, TECH + " (triple predicates, sigma classes) + bounded end-to-end check against an oracle", "DESIGN.md §5 C20"),
  "C16": ("other", "Round-trip clause proved for all mixed graphs (sets/relations, injectivity of generated names): to_latent_variable_dag returns a tagged DAG whose observed nodes and "
          "edges are exactly the graph's, in which every latent is a parentless node whose children are the two end points of a bidirected edge, one per bidirected edge; "
          "from_latent_variable_dag reads any tagged DAG back as specified (observed nodes, edges leaving observed nodes, a bidirected edge between distinct children of a latent; "
          "ValueError iff a node lacks the tag); and composing the two contracts gives back the original graph, nodes without edges included (clauses roundtrip.*). "
-         "Evans simplification (simplify_latent.py mutates a DiGraph while a lazy topological iterator over it is live) is outside the VC generator's subset and is decided by the labelled "
-         "bounded stand-in: idempotence, observed nodes kept, and equality with the latent projection on every DAG with 2-4 nodes x every latent tagging, sampled 5-6 node tagged DAGs, "
+         "Evans simplification: the three removal rules (remove_widow_latents, remove_unidirectional_latents, remove_redundant_latents -- in-place functions, contract frame "
+         "`mutates:graph`) are proved for every tagged DAG of every size to remove exactly the latents the rule names (no child; exactly one child; child set properly inside "
+         "another latent's, or equal to it with a later name) and to leave every other node, edge and tag untouched, and to return exactly the removed set. "
+         "transform_latents_with_parents (it mutates the DiGraph while a lazy topological iterator over it is live) and the fixed-point loop of simplify_latent_dag are outside the "
+         "VC generator's subset; the composition is decided by the labelled bounded stand-in: idempotence, observed nodes kept, and equality with the latent projection on every DAG with 2-4 nodes x every latent tagging, sampled 5-6 node tagged DAGs, "
          "and a structured family of latent chains (a latent with observed parents whose children include another latent). "
          "The 'consequently' clause (separation / identifiability unchanged) follows from projection equality by Evans 2016 (trusted).",
          TRUST + "; preconditions: latent names f'{prefix}{i}' are not nodes of the graph, no bidirected self-loops; Variable(f'{prefix}{i}') injective in i; trusted mathematics: Evans 2016",
@@ -114,7 +124,8 @@ CHECKS = {
          "known finding: the paper's merge removes only the eliminated copy). The construction as a whole (worlds as frozensets of interventions, `node @ world`, the event dictionary) "
          "needs a Variable algebra the generator does not have; the probability / inconsistency / ancestral-graph clauses are decided by the labelled bounded stand-in: "
          "make_counterfactual_graph against a functional-SCM oracle (noise shared across worlds) on every ADMG with 2-3 nodes and sampled 3-4 node ADMGs with sampled conjunctions of "
-         "up to 3 counterfactual events (non-reflexive subscripts).",
+         "up to 3 counterfactual events (non-reflexive subscripts); and a run-time contract of make_parallel_worlds_graph (bounded): nodes, directed and bidirected edges equal the "
+         "definition of the parallel-worlds graph (two distinct copies are joined exactly when they share exogenous noise) for 1-4 worlds.",
          TRUST + "; trusted mathematics: Shpitser & Pearl 2008 Lemmas 24, 25; the bounded part trusts y0vc/fscm.py", TECH + " (merge_pw) + bounded functional-SCM oracle", "DESIGN.md §5 C18"),
  "C06": ("other", "Deductive part: every summation range that ID introduces (lines 1, 2, 4, 6) and every argument of the conditionals P(v | predecessors) it builds (lines 6, 7) is proved, "
          "for all graphs and queries, to be a plain node of the graph the function was called with (`audit.*` obligations attached to the Sum.safe / p_conditional call sites of "
@@ -152,8 +163,11 @@ CHECKS = {
          "as differing in a source domain -- (De(Z) - W) together with the districts meeting W minus An(W) in G with the edges into Z removed -- and raises only for Intervention objects or "
          "nodes outside the graph; create_transport_diagram returns the graph plus one fresh selection node T_v with the single edge T_v -> v per marked node; trso_line1 sums over exactly "
          "the regular (non-selection) nodes other than the outcomes. The TRSO recursion itself (deepcopy of a query record holding a dict of graphs, dict iteration over domains) is outside "
-         "the subset; the numeric clause, the 'same verdict as ID when there is no source domain' clause and 'never fails otherwise' are decided by the labelled bounded stand-in: "
-         "identify_target_outcomes on every ADMG with 2-3 nodes and sampled 4-5 node ADMGs, sampled queries and 0-2 source domains, against a family of exact SCMs in which each source "
+         "the subset. Its steps are checked by run-time contracts on direct calls (bounded, labelled): trso_line2 / 3 / 4, _line_6_helper and all_transports_d_separated against their "
+         "definitions (networkx, d-separation oracle on the canonical DAG, caller state unchanged) on every ADMG with 2-3 nodes and sampled 4-5 node ADMGs with derived selection diagrams; "
+         "trso_line9 / trso_line10 on every district of every ADMG with 2-3 nodes, sampled 4-node DAGs with <= 2 bidirected edges and sampled 5-node ADMGs against "
+         "Q[C'] = P(C'|do(V-C')) on an exact SCM. The numeric clause, the 'same verdict as ID when there is no source domain' clause and 'never fails otherwise' are decided by the labelled bounded stand-in: "
+         "identify_target_outcomes on every ADMG with 2-3 nodes and sampled 4-5 node ADMGs, sampled queries and 0-2 source domains (plus a family in which two source domains are usable at the same step, both dictionary orders), against a family of exact SCMs in which each source "
          "domain shares every mechanism with the target except at the nodes of its selection diagram (own implementation of the derivation).",
          TRUST + "; transport_variable(v) = Variable('T_' + v.name) modelled as an injective function into selection nodes; trusted mathematics: Tikka & Karvanen 2019 (TRSO soundness)",
          TECH + " (selection diagrams, line 1) + bounded multi-domain exact-SCM evaluation", "DESIGN.md §5 C05"),
